@@ -167,7 +167,9 @@ func c08Run(t *testing.T, run *Run, sc c08Scenario) {
 			case "stop":
 				w.Stop(svc, time.Second, c.Msg)
 			case "deploy":
-				w.Deploy(svc, mk("a", c.Gen), so, DefTO, 5*time.Second, time.Second)
+				names := mk("a", c.Gen)
+				tlSlowFirstProbe(w, names, c.Slow)
+				w.Deploy(svc, names, so, DefTO, 5*time.Second, time.Second)
 			case "rollout-deploy":
 				w.RolloutDeploy(svc, mk("r", c.Gen), 5*time.Second, time.Second)
 			case "rollout-set":
@@ -238,7 +240,7 @@ func c08Run(t *testing.T, run *Run, sc c08Scenario) {
 					// fixed by the statement (same rule as C07, DESIGN section 11 item 2)
 					after := tlStateAt(sc.Cmds, e.At, true)
 					for _, c := range sc.Cmds {
-						if c.Kind == "deploy" && c.At > r.At && c.At < e.At &&
+						if c.Kind == "deploy" && c.At+c.Slow > r.At && c.At < e.At &&
 							(strings.HasPrefix(got.Target, fmt.Sprintf("a%d-", after.Active)) || (after.Rollout > 0 && strings.HasPrefix(got.Target, fmt.Sprintf("r%d-", after.Rollout)))) {
 							sideOK = true
 						}
@@ -286,6 +288,13 @@ func c08Run(t *testing.T, run *Run, sc c08Scenario) {
 	}
 	run.Count("requests_checked", len(sc.Reqs))
 	run.Count("answered_while_stopped", stoppedSeen)
+	for _, d := range sc.Cmds {
+		for _, c := range sc.Cmds {
+			if d.Slow > 0 && c.At > d.At && c.At < d.At+d.Slow {
+				run.Count("commands_acknowledged_during_a_deploy:"+c.Kind, 1)
+			}
+		}
+	}
 	if stoppedSeen > 0 {
 		var cs []string
 		for _, c := range sc.Cmds {
